@@ -134,6 +134,19 @@ CLAIMED = {
                 "subset. No axioms.",
         "technique": "Coq refinement proof of the Try node against an inference-rule specification + extracted-model differential testing",
     },
+    "C04": {
+        "category": "proof",
+        "text": "Coq theorems (Properties_C04.v): C04_innermost (the by-name search returns the first entry with the name in the innermost scope of the current frame that has it), "
+                "C04_hint_codec (the distance/slot packing is lossless), C04_valid_hit_transparent (a cached lookup whose hint still describes what a by-name search finds returns "
+                "the same Boxed_Value and changes only the hint table) — and C04_refuted: the full statement is FALSE of the faithful model and of the code (witness evaluated in Coq: "
+                "g(false); g(true) returns 100 with the cache, 1 without). The stale-hint behaviour is a recorded known finding keyed by call site; the check attributes a cache-visible "
+                "difference to it only when the faithful model (hints on) reproduces the cached run and the model without the mechanism reproduces the bypassed run; any other "
+                "difference, and any departure of the bypassed engine from the innermost-binding reference, is a violation.",
+        "design_ref": "DESIGN.md §6 C04",
+        "note": "Hook H1 (CHAISCRIPT_VERIF: Dispatch_Engine::verif_ignore_hints). eval() texts are pre-parsed by the implementation's parser. use(), globals and attribute-held lambdas are "
+                "outside the modelled subset; function-position hints (validated by name in the code) are not modelled. No axioms.",
+        "technique": "Coq proof of the lookup lemmas + computed refutation witness; two-mode differential testing with model-based finding attribution",
+    },
 }
 PENDING_REASON = "check not built yet in this round (work in progress; see DESIGN.md §6 for the planned Coq model and tie)"
 ALL = ["C%02d" % i for i in range(1, 21)]
